@@ -461,6 +461,10 @@ class Module(HasAccessibles):
             except BadValueError as e:
                 self.errors.append(f'{name}.{propname}: {str(e)}')
         # the wire name is known only now: the configuration may override 'export'
+        try:
+            accessible.fixExport()  # a bare True from the configuration stands for the default wire name
+        except ProgrammingError as e:
+            self.errors.append(f'{name}: {e}')
         if accessible.export:
             self.accessiblename2attr[accessible.export] = name
         if isinstance(accessible, Parameter):
